@@ -483,6 +483,12 @@ pub fn lru_alphabet(p: &Program) -> Vec<Op> {
     for c in [0u8, 1, 2, 3] {
         a.push(Op::LruCap(c));
     }
+    if p.nodes.iter().any(|n| format!("{:?}", n.ex).contains("Ext(")) {
+        // external state changing without a new revision: results must still be those of
+        // unbounded caching (twin-database oracle)
+        a.push(Op::SetExt(0, 1));
+        a.push(Op::SetExt(0, 2));
+    }
     a
 }
 
@@ -548,7 +554,22 @@ pub fn struct_alphabet(p: &Program) -> Vec<Op> {
 
 /// C07: conditional creation (slot churn) + functions keyed by structs and by tuples
 pub fn churn_struct_set() -> Vec<Program> {
-    vec![Program {
+    vec![
+        // identity fields that change under a colliding hash: the slot is reclaimed in place
+        // (new generation) on every change; consumers reach the struct through the creator only
+        Program {
+            name: "churn-colliding-identity".into(),
+            cells: vec![(1, Dur::Low), (0, Dur::Low)],
+            nodes: vec![
+                NodeDef::new(Kind::Mk, Ex::Mk(vec![ent(k(1), cell(0), cell(1), k(3), 1), ent(cell(1), k(7), cell(0), k(1), 1)])),
+                NodeDef::new(Kind::Ev, Ex::Fld(0, 0, 0)),
+                NodeDef::new(Kind::Ev, Ex::add(Ex::OnTs(0, 0, 0), Ex::Fld(0, 1, 0))),
+                NodeDef::new(Kind::Ev, Ex::add(call(1), Ex::Len(0))),
+            ],
+            ext: vec![0],
+            root0: None,
+        },
+        Program {
         name: "churn-structs".into(),
         cells: vec![(1, Dur::Low), (0, Dur::Low)],
         nodes: vec![
@@ -567,6 +588,9 @@ pub fn churn_struct_set() -> Vec<Program> {
 
 pub fn churn_struct_alphabet(p: &Program) -> Vec<Op> {
     let mut a = vec![Op::Set(0, 0), Op::Set(0, 1), Op::Set(1, 0), Op::Set(1, 1), Op::Set(1, 2)];
+    if p.name.contains("colliding") {
+        a = vec![Op::Set(0, 0), Op::Set(0, 1), Op::Set(0, 2), Op::Set(1, 0), Op::Set(1, 1)];
+    }
     for n in 0..p.nodes.len() as u8 {
         a.push(Op::Q(n));
     }
@@ -616,4 +640,252 @@ pub fn intern_alphabet_full(p: &Program) -> Vec<Op> {
 /// reduced alphabet for the deep runs needed by revisions = 3
 pub fn intern_alphabet_small(_p: &Program) -> Vec<Op> {
     vec![Op::Set(0, 0), Op::Set(0, 1), Op::Set(0, 2), Op::Syn(Dur::Low), Op::Q(0), Op::Q(3), Op::Q(2)]
+}
+
+// ------------------------------------------------------------------------------------------------
+// C10: specify
+
+fn ent_post(cond: Ex, ident: Ex, f: Ex, g: Ex, post: Vec<Post>) -> MkEnt {
+    MkEnt { cond, ident, f, g, variant: 0, post }
+}
+
+pub fn specify_set() -> Vec<Program> {
+    let mut v = Vec::new();
+    // conditional specify; call before specify (computed value kept); call after specify
+    v.push(Program {
+        name: "spec-a".into(),
+        cells: vec![(0, Dur::Low), (1, Dur::Low)],
+        nodes: vec![
+            NodeDef::new(
+                Kind::Mk,
+                Ex::Mk(vec![
+                    ent_post(k(1), k(1), cell(0), cell(1), vec![Post::Spec { cond: cell(0), val: Ex::add(cell(1), k(0x20)) }]),
+                    ent_post(k(1), k(2), k(1), cell(1), vec![Post::CallSp, Post::Spec { cond: cell(1), val: k(0x33) }]),
+                    ent_post(cell(1), k(3), k(2), cell(0), vec![Post::Spec { cond: k(1), val: k(0x34) }, Post::CallSp]),
+                ]),
+            ),
+            NodeDef::new(Kind::Ev, Ex::add(Ex::OnTs(0, 0, 2), Ex::OnTs(0, 1, 2))),
+            NodeDef::new(Kind::Ev, Ex::OnTs(0, 2, 2)),
+        ],
+        ext: vec![0],
+        root0: None,
+    });
+    // specify twice in one execution (panics when cell 0 != 0)
+    v.push(Program {
+        name: "spec-twice".into(),
+        cells: vec![(0, Dur::Low), (1, Dur::Low)],
+        nodes: vec![
+            NodeDef::new(
+                Kind::Mk,
+                Ex::Mk(vec![ent_post(
+                    k(1),
+                    k(1),
+                    cell(1),
+                    k(5),
+                    vec![Post::Spec { cond: k(1), val: k(0x21) }, Post::Spec { cond: cell(0), val: k(0x22) }],
+                )]),
+            ),
+            NodeDef::new(Kind::Ev, Ex::OnTs(0, 0, 2)),
+            NodeDef::new(Kind::Ev, Ex::add(cell(1), k(1))),
+        ],
+        ext: vec![0],
+        root0: None,
+    });
+    // specify a struct created by another function (panics when cell 0 != 0)
+    v.push(Program {
+        name: "spec-foreign".into(),
+        cells: vec![(0, Dur::Low), (1, Dur::Low)],
+        nodes: vec![
+            NodeDef::new(Kind::Mk, Ex::Mk(vec![ent_post(k(1), k(1), cell(1), k(5), vec![])])),
+            NodeDef::new(
+                Kind::Mk,
+                Ex::Mk(vec![ent_post(k(1), k(2), k(1), k(1), vec![Post::SpecOther { cond: cell(0), node: 0, idx: 0, val: k(9) }])]),
+            ),
+            NodeDef::new(Kind::Ev, Ex::add(Ex::OnTs(0, 0, 2), Ex::Len(1))),
+        ],
+        ext: vec![0],
+        root0: None,
+    });
+    v
+}
+
+pub fn specify_alphabet(p: &Program) -> Vec<Op> {
+    let mut a = vec![Op::Set(0, 0), Op::Set(0, 1), Op::Set(1, 0), Op::Set(1, 1), Op::Syn(Dur::Low)];
+    for n in 0..p.nodes.len() as u8 {
+        a.push(Op::Q(n));
+    }
+    a.push(Op::QOnTs(0, 0, 2));
+    a.push(Op::QOnTs(0, 1, 2));
+    a
+}
+
+// ------------------------------------------------------------------------------------------------
+// C11: accumulators
+
+fn seq(v: Vec<Ex>) -> Ex {
+    Ex::Seq(v)
+}
+
+pub fn acc_set() -> Vec<Program> {
+    let mut v = Vec::new();
+    // pushes before calls: order is fully determined (own values first, then callees)
+    v.push(Program {
+        name: "acc-pre".into(),
+        cells: vec![(0, Dur::Low), (1, Dur::Low)],
+        nodes: vec![
+            NodeDef::new(Kind::Ev, seq(vec![Ex::Push(1), Ex::ifc(0, Ex::Push(2), k(0)), cell(1)])),
+            NodeDef::new(Kind::Ev, seq(vec![Ex::Push(3), call(0)])),
+            NodeDef::new(Kind::Ev, seq(vec![Ex::Push(4), Ex::add(call(0), call(1))])),
+            NodeDef::new(Kind::Ev, seq(vec![Ex::ifc(1, Ex::Push(5), k(0)), Ex::add(call(2), call(0))])),
+        ],
+        ext: vec![0],
+        root0: None,
+    });
+    // value-dependent accumulation, backdating leaf, never-change leaf, lru leaf
+    v.push(Program {
+        name: "acc-pre-mixed".into(),
+        cells: vec![(0, Dur::Low), (1, Dur::Low)],
+        nodes: vec![
+            NodeDef::new(Kind::Lru, seq(vec![Ex::PushX(cell(0).b()), Ex::and(cell(0), k(0))])),
+            NodeDef::new(Kind::Ev, seq(vec![Ex::Push(7), k(7)])).dur(Dur::Never),
+            NodeDef::new(Kind::Ev, seq(vec![Ex::Push(3), Ex::ifc(1, Ex::Push(9), k(0)), Ex::add(call(0), call(1))])),
+            NodeDef::new(Kind::Ev, seq(vec![Ex::ifc(1, Ex::Push(5), k(0)), Ex::add(call(2), call(1))])),
+        ],
+        ext: vec![0],
+        root0: None,
+    });
+    // pushes after calls: only the multiset is compared
+    v.push(Program {
+        name: "acc-post".into(),
+        cells: vec![(0, Dur::Low), (1, Dur::Low)],
+        nodes: vec![
+            NodeDef::new(Kind::Ev, seq(vec![cell(1), Ex::ifc(0, Ex::Push(2), k(0)), Ex::Push(1)])),
+            NodeDef::new(Kind::Ev, seq(vec![call(0), Ex::Push(3)])),
+            NodeDef::new(Kind::Ev, seq(vec![call(1), Ex::Push(4), Ex::iff(call(0), Ex::Push(9), k(0)), Ex::ifc(1, Ex::Push(6), k(0))])),
+        ],
+        ext: vec![0],
+        root0: None,
+    });
+    v
+}
+
+pub fn acc_alphabet(p: &Program) -> Vec<Op> {
+    let mut a = vec![Op::Set(0, 0), Op::Set(0, 1), Op::Set(1, 0), Op::Set(1, 1), Op::Syn(Dur::Low)];
+    let n = p.nodes.len() as u8;
+    for i in 0..n {
+        a.push(Op::Acc(i));
+    }
+    a.push(Op::Q(n - 1));
+    a.push(Op::Q(0));
+    a
+}
+
+// ------------------------------------------------------------------------------------------------
+// C14: cycles through functions without recovery
+
+pub fn plain_cycle_set() -> Vec<Program> {
+    let mut v = Vec::new();
+    let unrelated = || NodeDef::new(Kind::Ev, Ex::add(cell(1), k(1)));
+    v.push(Program {
+        name: "pc-pure".into(),
+        cells: vec![(1, Dur::Low), (0, Dur::Low)],
+        nodes: vec![
+            NodeDef::new(Kind::Ev, Ex::or(call(1), k(1))),
+            NodeDef::new(Kind::Ev, Ex::ifc(0, Ex::or(call(0), k(2)), k(4))),
+            unrelated(),
+        ],
+        ext: vec![0],
+        root0: None,
+    });
+    v.push(Program {
+        name: "pc-mixed".into(),
+        cells: vec![(1, Dur::Low), (0, Dur::Low)],
+        nodes: vec![
+            NodeDef::new(Kind::Fx, Ex::or(call(1), k(1))),
+            NodeDef::new(Kind::Ev, Ex::ifc(0, Ex::or(call(0), k(2)), k(4))),
+            unrelated(),
+        ],
+        ext: vec![0],
+        root0: None,
+    });
+    v.push(Program {
+        name: "pc-self".into(),
+        cells: vec![(1, Dur::Low), (0, Dur::Low)],
+        nodes: vec![
+            NodeDef::new(Kind::Ev, Ex::ifc(0, Ex::or(call(0), k(1)), k(3))),
+            NodeDef::new(Kind::Ev, Ex::or(call(0), k(2))),
+            unrelated(),
+        ],
+        ext: vec![0],
+        root0: None,
+    });
+    v.push(Program {
+        name: "pc-three-mixed".into(),
+        cells: vec![(1, Dur::Low), (0, Dur::Low)],
+        nodes: vec![
+            NodeDef::new(Kind::Fx, Ex::or(call(1), k(1))),
+            NodeDef::new(Kind::Ev, Ex::or(call(2), k(2))),
+            NodeDef::new(Kind::Fx, Ex::ifc(0, Ex::or(call(0), k(4)), k(4))),
+            unrelated(),
+        ],
+        ext: vec![0],
+        root0: None,
+    });
+    v
+}
+
+pub fn plain_cycle_alphabet(p: &Program) -> Vec<Op> {
+    let mut a = vec![Op::Set(0, 0), Op::Set(0, 1), Op::Set(1, 0), Op::Set(1, 1)];
+    for n in 0..p.nodes.len() as u8 {
+        a.push(Op::Q(n));
+    }
+    a
+}
+
+// ------------------------------------------------------------------------------------------------
+// C08 (sequential part): the same values interned from several queries and from the top level
+
+pub fn intern_canon_prog(ty: u8) -> Program {
+    Program {
+        name: format!("canon-ty{ty}"),
+        cells: vec![(0, Dur::Low), (1, Dur::Low)],
+        nodes: vec![
+            NodeDef::new(Kind::Ev, Ex::IntFn(ty, cell(0).b())),
+            NodeDef::new(Kind::Ev, Ex::Int(ty, cell(0).b())),
+            NodeDef::new(Kind::Ev, Ex::add(Ex::Int(ty, cell(1).b()), call(0))),
+        ],
+        ext: vec![0],
+        root0: None,
+    }
+}
+
+pub fn intern_canon_alphabet(p: &Program) -> Vec<Op> {
+    let ty: u8 = p.name.trim_start_matches("canon-ty").parse().unwrap_or(1);
+    vec![Op::Set(0, 0), Op::Set(0, 1), Op::Set(1, 1), Op::Syn(Dur::Low), Op::Q(0), Op::Q(1), Op::Q(2), Op::QInt(ty, 0), Op::QInt(ty, 1)]
+}
+
+// ------------------------------------------------------------------------------------------------
+// C03: programs whose results change durability without changing value
+
+pub fn durq_set() -> Vec<Program> {
+    let mut v = Vec::new();
+    for (name, q) in [
+        // reads the LOW cell only while the HIGH cell says so; value is 0 either way
+        ("durq-and", Ex::ifc(0, Ex::and(cell(1), k(0)), k(0))),
+        // same shape, value depends on the HIGH cell only
+        ("durq-sel", Ex::ifc(0, Ex::add(Ex::and(cell(1), k(0)), k(1)), k(1))),
+    ] {
+        v.push(Program {
+            name: name.into(),
+            cells: vec![(0, Dur::High), (0, Dur::Low)],
+            nodes: vec![
+                NodeDef::new(Kind::Ev, q).dur(Dur::High),
+                NodeDef::new(Kind::Ev, Ex::add(call(0), k(1))).dur(Dur::High),
+                NodeDef::new(Kind::Ev, Ex::add(call(1), call(0))).dur(Dur::High),
+            ],
+            ext: vec![0],
+            root0: None,
+        });
+    }
+    v
 }
